@@ -15,6 +15,10 @@ inductive XOp where
   | op (o : Op)
   /-- every callback that runs in the next cycle returns an error after making its observations -/
   | cberr
+  /-- the contexts of the next cycle's collections are cancelled while instrument `j` is being aggregated.
+  `pipeline.produce` consults `ctx.Err()` only in the callback loops (pipeline.go:128-153), never in the aggregation
+  loop: the collection completes, returns all its data and (callback errors aside) a nil error — no effect at all. -/
+  | cancelAt (j : Nat)
 deriving Repr
 
 /-- does a callback really exist in the pipelines?  An instrument-level callback is added only when the instrument
@@ -39,6 +43,7 @@ deriving Repr
 
 def XSys.step (x : XSys) : XOp → XSys
   | .cberr => { x with failNext := true }
+  | .cancelAt _ => x
   | .op .col =>
     let e := x.failNext && x.sys.hasLiveCallback
     { sys := x.sys.step .col, failNext := false
@@ -53,6 +58,7 @@ def eraseErr (xs : List XOp) : List Op :=
   xs.filterMap fun
     | .op o => some o
     | .cberr => none
+    | .cancelAt _ => none
 
 /-! ### self-consistency of a reported histogram point (explicit or exponential): the bucket counts add up to Count -/
 
